@@ -447,11 +447,16 @@ theorem repairCascade_some (host : String) (st : NodeState) (cs : ClusterState) 
                               by simpa using ha, by simpa using hsb, hb, Or.inl rfl, by simp⟩
                       · nomove
 
+/-- the source used by the blind branch: a self-reference falls back to the recorded master -/
+def blindSource (host : String) (i : In) : String :=
+  if host == i.streamFrom then i.master else i.streamFrom
+
 theorem repairCascade_none (host : String) (st : NodeState) (cs : ClusterState) (i : In) (hs : st.slave = none) :
     repairCascade host st cs i =
-      if host == i.streamFrom then [.panic "performChangeMaster: host == master"]
-      else if i.changeBlindOk then [.changeMaster i.streamFrom, .startSlave] else [.changeMaster i.streamFrom] := by
-  unfold repairCascade
+      if host == blindSource host i then [.panic "performChangeMaster: host == master"]
+      else if i.changeBlindOk then [.changeMaster (blindSource host i), .startSlave]
+      else [.changeMaster (blindSource host i)] := by
+  unfold repairCascade blindSource
   rw [hs]
 
 /-- shape of a guarded move -/
@@ -505,7 +510,7 @@ theorem rc_never_points_at_itself (host : String) (st : NodeState) (cs : Cluster
     split
     · simp
     · next hne =>
-      have : host ≠ i.streamFrom := by simpa using hne
+      have : host ≠ blindSource host i := by simpa using hne
       split <;> simp [this]
   | some sl =>
     rcases repairCascade_some host st cs i sl hs with h |
@@ -530,6 +535,16 @@ theorem rc_splitbrain_emerge_no_move (host : String) (st : NodeState) (cs : Clus
     · exact h'
     · rw [heq] at h
       exact absurd h (writeEmerge_not_mem_move hpost)
+
+theorem rc_blind_self_reference (host : String) (st : NodeState) (cs : ClusterState) (i : In)
+    (hs : st.slave = none) (hsf : i.streamFrom = host) (hm : i.master ≠ host) :
+    (∀ site, Act.panic site ∉ repairCascade host st cs i) ∧
+    (repairCascade host st cs i).head? = some (.changeMaster i.master) := by
+  have hb : blindSource host i = i.master := by simp [blindSource, hsf]
+  have hne : (host == i.master) = false := by
+    simpa using fun e : host = i.master => hm e.symm
+  rw [repairCascade_none host st cs i hs, hb, hne]
+  cases i.changeBlindOk <;> simp
 
 /-! ### HA counters -/
 
